@@ -61,6 +61,14 @@ CHECKS = {
    technique="property-based testing (proptest): model-based oracle (uncompressed reference semantics = the run with compression disabled) plus stand-in log inspection over generated write/read programs",
    text="Two real proxies, compression strategy from SETCLUSTER CONFIG, active redirection on/off; programs of SET (with EX/PX/NX/XX/KEEPTTL), SETEX, PSETEX, SETNX, GETSET, MSET/MSETNX (1..4 pairs), GET, MGET, DEL and restricted commands entering through either proxy; values empty..1 MiB, incompressible, zstd-looking, pre-compressed. Every reply equals the model's; in the stand-in log non-value arguments are identical and value arguments zstd-decode to the request's value; restricted commands are refused and never reach Redis in set_get_only.",
    note="Multi-key commands use keys of one slot. Results of restricted commands in allow_all mode are not judged."),
+ "C03": dict(engine="proxysim", category="exploration", design="DESIGN.md §3 C03",
+   technique="property-based testing (proptest): generated client programs x generated message schedules against the real migration; per-key linearizability oracle (Wing-Gong search vs a sequential register-with-delete model) and admissible-final-state oracle",
+   text="A world with real source/destination/bystander proxies and stateful Redis stand-ins runs the real migration (handshake, scan, pull, push, final switch, commit) while 1..4 generated clients operate on keys inside and outside the range through generated start proxies; every message is delayed by a generated schedule on the virtual clock. Each key's client-visible history must be linearizable; after commit every range key lives only on the destination with a value admissible after the history, others only on the source, untouched keys unchanged.",
+   note="Interleavings are explored at message granularity on a single-thread runtime; races between two tasks of one proxy between awaits, and multi-core memory effects, are out of reach. Handshake latency is kept below max_blocking_time (the force-ahead fallback is a fault path). Error replies count as outcome-unknown."),
+ "C19": dict(engine="codec+proxysim", category="exploration", design="DESIGN.md §3 C19",
+   technique="property-based testing (proptest): function-level oracle over all PTTL reply classes; log-based oracle (every RESTORE justified by an earlier PTTL read) over generated migrations with forced transfer paths and sub-millisecond TTLs on a virtual clock",
+   text="(function) pttl_to_restore_expire_time over -2, -1, 0, 1, small, 2^31+-1, 2^63-1, uniform and malformed replies. (paths) real migrations with keys whose remaining TTL is generated (persistent, <1 ms so PTTL reads 0, ms, s), forced through scan / pull / push. (worlds) random C03 worlds with expiring keys. Every RESTORE reaching the destination must be justified by an earlier PTTL reply p for that key: p=-1 -> 0; p>=0 -> 1<=ttl<=max(p,1), never 0; persistent stays persistent, expiring keeps an expiry.",
+   note="The RESTORE ttl is compared with the PTTL value read, not with the original absolute expiry. Malformed PTTL replies are outside Redis' domain: no claim."),
 }
 
 NOT_YET = {}
